@@ -244,6 +244,10 @@ class Run:
             changed = False
             while i < len(lines) - 1 and time.time() - t0 < budget_s:  # never remove the last (diverging) op
                 cand = lines[:i] + lines[min(i + chunk, len(lines) - 1):]
+                # configuration lines are part of every op that follows them: never minimised away
+                if any(l.split(' ', 1)[0] == 'setup' for l in lines[i:min(i + chunk, len(lines) - 1)]):
+                    i += chunk
+                    continue
                 d = self.diverges(espec, cand)
                 if d is not None:
                     lines, best, changed = cand, d, True
